@@ -59,6 +59,8 @@ def build_image(rng, geo, populate=1, free_left=None, dirty_free=0, second_parti
     if not kw["fat32"] and rng.chance(1, 2):
         v.ea_word = rng.choice([3, 0x8000, 0xFFFF, 1])
     meta = dict(geo=name, files={}, dirs={"": v.root}, fat32=kw["fat32"], spc=kw.get("spc", 1), N=v.N, vol=v)
+    # a 16-entry FAT16 root has no room for four long-named files, deleted slots and a long-named directory
+    small_root = (not kw["fat32"]) and kw.get("root_entries", 512) <= 32
     if populate:
         n = 1 + rng.below(4)
         for i in range(n):
@@ -66,15 +68,15 @@ def build_image(rng, geo, populate=1, free_left=None, dirty_free=0, second_parti
             ln = rng.choice([0, 1, 511, 512, 513, v.spc * 512, v.spc * 512 + 1, 3 * v.spc * 512 + 7, rng.below(5000)])
             data = bytes((rng.below(256) for _ in range(min(ln, 20000))))
             node = v.add_file(v.root, nm, data, scatter=rng.below(3), rng=rng,
-                              lfn=("long name %d.txt" % i) if rng.chance(1, 3) else None,
+                              lfn=("long name %d.txt" % i) if (rng.chance(1, 3) and not (small_root and i > 0)) else None,
                               attr=0x21 if (populate > 1 and i == 1) else 0x20)
             meta["files"]["/" + nm] = node
         if ensure_big:
             node = v.add_file(v.root, "BIGGER.BIN", bytes(range(251)) * (v.spc * 9), scatter=1, rng=rng)
             meta["files"]["/BIGGER.BIN"] = node
         if rng.chance(2, 3):
-            v.fill_dir_with_deleted(v.root, 1 + rng.below(3))
-        d = v.add_dir(v.root, "SUB", lfn="Sub Directory" if rng.chance(1, 2) else None)
+            v.fill_dir_with_deleted(v.root, 1 + rng.below(1 if small_root else 3))
+        d = v.add_dir(v.root, "SUB", lfn="Sub Directory" if (rng.chance(1, 2) and not small_root) else None)
         meta["dirs"]["/SUB"] = d
         node = v.add_file(d, "INNER.DAT", bytes(range(256)) * (1 + rng.below(5)), scatter=1, rng=rng)
         meta["files"]["/SUB/INNER.DAT"] = node
